@@ -31,6 +31,7 @@ def cases(tier, seed):
                         "name": f"ema_grouped(alpha) public entry/float64/N={3 if tier == 'quick' else 4},G={Gp}/null keys={nk}/mask={mk}/all code sequences"})
     for dt in ("float64", "int64"):
         out.append({"variant": "ungrouped", "dtype": dt, "N": 4, "name": f"grouped(single group) == ema_adjusted/{dt}/N=4"})
+        out.append({"variant": "ungrouped", "dtype": dt, "N": 3, "public": True, "name": f"grouped(single group) == ema(values, alpha) public entry/{dt}/N=3"})
     for first in range(-1, 2):
         out.append({"variant": "layout", "N": 4, "G": 2, "first": first, "orders": [[0, 1], [1, 0]], "masks": [None, [True, False, True, True]],
                     "name": f"GroupBy.ema(index_by_groups=True) lists the row-aligned numbers group by group/N=4,G=2/both label orders/code sequences starting with {first}"})
